@@ -690,13 +690,13 @@ def Query.reach (schema : Schema) : Query → List Reach
     else match lookup schema property with
       | none => []
       | some value =>
-        if value.type = tVectorVamana then
-          match vamana, value.vamana with
-          | some o, some p => reachO schema vf ++ [⟨p.vectorSize, o.vector.length⟩]
-          | _, _ => []
-        else if value.type = tVectorFlat then
+        if value.type = tVectorFlat then
           match flat, value.flat with
           | some o, some p => reachO schema ff ++ [⟨p.vectorSize, o.vector.length⟩]
+          | _, _ => []
+        else if value.type = tVectorVamana then
+          match vamana, value.vamana with
+          | some o, some p => reachO schema vf ++ [⟨p.vectorSize, o.vector.length⟩]
           | _, _ => []
         else if value.type = tText then
           match text with
